@@ -566,6 +566,19 @@ ILL_FIXED = [   # inputs of the Lean witnesses / examples (Props/C14Illumina.lea
 ]
 
 
+def own_contig_short_bam(d, seed):
+    """a short-read BAM whose header lists `chrZ` only (spliced reads on it)"""
+    import random
+    from gen import synth
+    own = synth.Dataset(seed + 2)
+    own.add_chrom("chrZ", 6000)
+    rng = random.Random(seed)
+    for k in range(6):
+        a = rng.randint(1000, 1200)
+        own.read_from_exons("z%d" % k, "chrZ", [(a, a + 40), (a + 400, a + 440)])
+    return own.write(d, bam_name="own_contigs.bam", write_ref=False)["bam"]
+
+
 def ill_bam_cases(ctx, seed):
     """the real constructor on two synthetic short-read BAMs: get_introns / merge_dictionaries / the +1 shift, then
     correct_exons with the real container; -> list of (op, kw, impl)"""
@@ -580,13 +593,16 @@ def ill_bam_cases(ctx, seed):
         other = [r for k, r in enumerate(reads) if k % 3 == 0 or k % 5 == 0]     # overlapping: counts add up
         p1 = sh.write(os.path.join(d, "s1"), bam_name="s1.bam", reads=half, write_ref=False)["bam"]
         p2 = sh.write(os.path.join(d, "s2"), bam_name="s2.bam", reads=other, write_ref=False)["bam"]
+        # a short-read file with its OWN contig set (audit2-A F2: short reads aligned to / subset to other sequences; its
+        # header does not list chr1): it contributes no junction on chr1 - and must not raise
+        p3 = own_contig_short_bam(os.path.join(d, "s3"), seed)
         windows = [(0, 24000), (5000, 9000), (6000, 6400)]
         for (a, b) in windows:
-            for files in ([p1, p2], [p1], [p2, p1, p2]):
+            for files in ([p1, p2], [p1], [p2, p1, p2], [p1, p3], [p3], [p3, p2]):
                 per_file = []
                 for fpath in files:
                     with pysam.AlignmentFile(fpath, "rb") as af:
-                        cnt = af.find_introns(af.fetch("chr1", start=a, stop=b))
+                        cnt = af.find_introns(af.fetch("chr1", start=a, stop=b)) if af.get_tid("chr1") >= 0 else {}
                     per_file.append([[list(k), int(v)] for k, v in cnt.items()])
                 corr = guarded(lambda: M["IL"].IlluminaExonCorrector("chr1", a, b, files), 20.0)
                 if vlib.is_err(corr):
@@ -1147,9 +1163,14 @@ def run_illumina_pipeline(seed, strategy, flags_by_strategy=None):
     try:
         paths = ds.write(os.path.join(d, "data"))
         sp = sh.write(os.path.join(d, "short"), bam_name="short.bam", write_ref=False)
+        short_files = [sp["bam"]]
+        if seed % 2 == 1:
+            # every second scenario: a second short-read file with its own contig set (header {chrZ}; audit2-A F2) - the
+            # records of the run must be what they are without it
+            short_files.insert(0, own_contig_short_bam(os.path.join(d, "short_own"), seed))
         outdir = os.path.join(d, "out")
         wrap, menv, mon = monitor_env(d, "ill")
-        rc, log = P.run_isoquant(outdir, P.std_args(paths, extra=["--illumina_bam", sp["bam"], "--splice_correction_strategy", strategy,
+        rc, log = P.run_isoquant(outdir, P.std_args(paths, extra=["--illumina_bam"] + short_files + ["--splice_correction_strategy", strategy,
                                                                  "--delta", "6", "--no_model_construction"]), wrapper=wrap, env=menv)
         fails += monitor_failures(mon, stats)
         if rc != 0:
